@@ -60,30 +60,57 @@ Print Assumptions batch_size_commit_effect.
 
 (* a non-empty batch always has its age commit pending (the timer runs, or has fired and is not read yet) ... *)
 Theorem batch_age_commit_pending (A : Type) qcap maxsize (es : list (bev A)) :
-  let s := brun (mk_bcfg qcap maxsize true) es in pend s <> [] -> armed (tm s).
-Proof. exact (age_commit_pending (mk_bcfg qcap maxsize true) es eq_refl). Qed.
+  let s := brun (mk_bcfg qcap maxsize true true) es in pend s <> [] -> armed (tm s).
+Proof. exact (age_commit_pending (mk_bcfg qcap maxsize true true) es eq_refl). Qed.
 Print Assumptions batch_age_commit_pending.
 
 (* ... and the timer branch commits the whole batch, or keeps it and re-arms the timer *)
 Theorem batch_commit_on_age (A : Type) (c : bcfg) (s : bst A) (ok : bool) :
-  blocked s = false -> pc s = PIdle -> t_chan (tm s) = true ->
+  blocked s = false -> pc s = PIdle -> t_chan (tm s) = true -> 0 < cur s ->
   let s1 := bstep c s (OnTimer ok) in
   if ok then pend s1 = [] /\ committed s1 = committed s ++ [pend s] /\ cur s1 = 0
   else pend s1 = pend s /\ committed s1 = committed s /\ (fixed_S2 c = true -> t_active (tm s1) = true).
 Proof. exact (commit_on_age c s ok). Qed.
 Print Assumptions batch_commit_on_age.
 
+(* S28, repaired (fix: crdt batch worker does not commit an empty batch): when the timer fires for a batch that holds
+   nothing (it was armed by an operation whose Add/Rm failed) the worker reads the channel and does nothing else ... *)
+Theorem batch_empty_batch_not_committed (A : Type) (c : bcfg) (s : bst A) (ok : bool) :
+  fixed_S28 c = true -> blocked s = false -> pc s = PIdle -> t_chan (tm s) = true -> cur s = 0 ->
+  bstep c s (OnTimer ok) = mk_bst (queue s) (cur s) (t_recv (tm s)) (pend s) (committed s) (tlog s) PIdle false (accepted s) (refused s).
+Proof. exact (empty_batch_not_committed c s ok). Qed.
+Print Assumptions batch_empty_batch_not_committed.
+
+(* ... hence no committed batch is ever empty: every schedule, every outcome of every Add/Rm and Commit *)
+Theorem batch_never_commits_empty_batch (A : Type) qcap maxsize (es : list (bev A)) :
+  Forall (fun b : list A => b <> []) (committed (brun (mk_bcfg qcap maxsize true true) es)).
+Proof. exact (never_commits_empty (mk_bcfg qcap maxsize true true) es eq_refl eq_refl). Qed.
+Print Assumptions batch_never_commits_empty_batch.
+
+(* the code before the fix: the only operation of a batch fails in Add/Rm, the timer fires, an empty batch is committed *)
+Theorem batch_empty_commit_before_fix_refuted :
+  exists qcap maxsize (es : list (bev N)), In [] (committed (brun (mk_bcfg qcap maxsize true false) es)).
+Proof. exact empty_commit_before_fix. Qed.
+Print Assumptions batch_empty_commit_before_fix_refuted.
+
+(* S29, repaired (fix: crdt LogPin with batching refuses a pin that cannot be serialized): the refusal is recorded and
+   nothing else changes *)
+Theorem batch_rejected_has_no_effect (A : Type) (c : bcfg) (s : bst A) (i : A) :
+  bstep c s (Reject i) = mk_bst (queue s) (cur s) (tm s) (pend s) (committed s) (tlog s) (pc s) (blocked s) (accepted s) (refused s ++ [i]).
+Proof. exact (rejected_no_effect c s i). Qed.
+Print Assumptions batch_rejected_has_no_effect.
+
 (* S2, repaired (fix: re-arm the crdt batch timer when the age-limit commit fails): full strength, every schedule,
    every outcome of every Add/Rm and Commit, every queue capacity and batch size *)
 Theorem batch_worker_never_blocks (A : Type) qcap maxsize (es : list (bev A)) :
-  blocked (brun (mk_bcfg qcap maxsize true) es) = false.
-Proof. exact (never_blocks (mk_bcfg qcap maxsize true) es eq_refl). Qed.
+  blocked (brun (mk_bcfg qcap maxsize true true) es) = false.
+Proof. exact (never_blocks (mk_bcfg qcap maxsize true true) es eq_refl). Qed.
 Print Assumptions batch_worker_never_blocks.
 
 (* the code before the fix: the schedule observed on the real code blocks the worker with an accepted operation queued *)
 Theorem batch_timer_deadlock_before_fix_refuted :
   exists qcap maxsize (es : list (bev N)),
-    let s := brun (mk_bcfg qcap maxsize false) es in blocked s = true /\ queue s <> [] /\ accepted s = [1; 2; 3; 4].
+    let s := brun (mk_bcfg qcap maxsize false false) es in blocked s = true /\ queue s <> [] /\ accepted s = [1; 2; 3; 4].
 Proof. exact deadlock_before_fix_stmt. Qed.
 Print Assumptions batch_timer_deadlock_before_fix_refuted.
 
@@ -106,29 +133,29 @@ Print Assumptions batch_timed_refines_untimed.
    the channel yet, or it is running and expires exactly max_age after the anchor of the batch = the instant its first
    operation was taken from the queue, or the last failed age-limit commit after that. Every schedule, every outcome. *)
 Theorem batch_age_timer_discipline (A : Type) qcap maxsize age (tes : list (cev A)) :
-  let c := mk_tcfg (mk_bcfg qcap maxsize true) age false in
+  let c := mk_tcfg (mk_bcfg qcap maxsize true true) age false in
   let s := trun c tes in
   length (ptimes (ti s)) = length (pend (core s)) /\
   (pend (core s) <> [] ->
      (t_active (tm (core s)) = true /\ twhen (ti s) = age_anchor s + age) \/ t_chan (tm (core s)) = true).
-Proof. exact (age_timer_discipline (mk_tcfg (mk_bcfg qcap maxsize true) age false) tes eq_refl eq_refl). Qed.
+Proof. exact (age_timer_discipline (mk_tcfg (mk_bcfg qcap maxsize true true) age false) tes eq_refl eq_refl). Qed.
 Print Assumptions batch_age_timer_discipline.
 
 (* the age limit: in every schedule in which the runtime fires a due timer within lf and the worker reads a fired timer
    within lw, a pending batch is never older than max_age + lf + lw counted from its anchor ... *)
 Theorem batch_age_bound_anchor (A : Type) qcap maxsize age lf lw (tes : list (cev A)) :
-  let c := mk_tcfg (mk_bcfg qcap maxsize true) age false in
+  let c := mk_tcfg (mk_bcfg qcap maxsize true true) age false in
   timely_from lf lw c tinit tes = true ->
   let s := trun c tes in
   pend (core s) <> [] -> now (ti s) <= age_anchor s + age + lf + lw.
-Proof. exact (age_bound (mk_tcfg (mk_bcfg qcap maxsize true) age false) lf lw tes eq_refl eq_refl). Qed.
+Proof. exact (age_bound (mk_tcfg (mk_bcfg qcap maxsize true true) age false) lf lw tes eq_refl eq_refl). Qed.
 Print Assumptions batch_age_bound_anchor.
 
 (* ... so an operation that is still waiting in the batch was taken from the queue at most max_age + lf + lw ago, as long
    as no age-limit commit of its batch failed; after such a failure the bound counts from the failure (the re-arm).
    Operations leave the pending batch only through a successful commit (batch_no_loss_no_reorder). *)
 Theorem batch_age_bound (A : Type) qcap maxsize age lf lw (tes : list (cev A)) :
-  let c := mk_tcfg (mk_bcfg qcap maxsize true) age false in
+  let c := mk_tcfg (mk_bcfg qcap maxsize true true) age false in
   timely_from lf lw c tinit tes = true ->
   let s := trun c tes in
   forall t, In t (ptimes (ti s)) ->
@@ -136,7 +163,7 @@ Theorem batch_age_bound (A : Type) qcap maxsize age lf lw (tes : list (cev A)) :
     | None => now (ti s) <= t + age + lf + lw
     | Some r => now (ti s) <= r + age + lf + lw
     end.
-Proof. exact (age_bound_items (mk_tcfg (mk_bcfg qcap maxsize true) age false) lf lw tes eq_refl eq_refl). Qed.
+Proof. exact (age_bound_items (mk_tcfg (mk_bcfg qcap maxsize true true) age false) lf lw tes eq_refl eq_refl). Qed.
 Print Assumptions batch_age_bound.
 
 (* the bound is about WHERE Reset is called: the machine that re-arms the timer on every dequeued operation (not the code)
@@ -273,7 +300,7 @@ Example value_guard_inhabited :
   value_guard [mk_delta 1 1 [(7, 5)] []; mk_delta 2 1 [(7, 6)] []; mk_delta 3 2 [] [(7, 1)]] 7.
 Proof. exact guard_example. Qed.
 Example batch_example :
-  let s := brun (mk_bcfg 2 2 true) [Enq 1; Enq 2; Enq 3; Take true; Take true; SizeCommit true; Enq 4] in
+  let s := brun (mk_bcfg 2 2 true true) [Enq 1; Enq 2; Enq 3; Take true; Take true; SizeCommit true; Enq 4] in
   accepted s = [1; 2; 4] /\ refused s = [3] /\ committed s = [[1; 2]] /\ queue s = [4].
 Proof. exact batch_example_l. Qed.
 Example batch_trickle_example :
@@ -288,3 +315,6 @@ Example relay_line_example :
   value (pinset_of line_pol 1 arrA) 7 = Some 5 /\ value (pinset_of line_pol 3 arrC) 7 = Some 5 /\
   value (pinset_of line_pol 1 arrA) 8 = Some 6 /\ value (pinset_of line_pol 3 arrC) 8 = Some 6.
 Proof. exact line_example. Qed.
+Example batch_empty_batch_example :
+  let s := brun (mk_bcfg 10 3 true true) s28_schedule in committed s = [] /\ t_chan (tm s) = false /\ tlog s = [(1, false)].
+Proof. exact no_empty_commit_after_fix. Qed.
